@@ -533,6 +533,43 @@ func corrEntry(r *hx.Rng, n int, thorough bool) {
 
 var evals int
 
+// distinct evaluated inputs: a set of 64-bit FNV-1a hashes of the input key; the bulk loops of the thorough tier
+// (tuples distinct by construction, overlaps with the other loops skipped) are counted without storing them
+var distinctSet = map[uint64]struct{}{}
+var bulk bool
+var bulkDistinct int
+
+func noteInput(kind byte, nums []int, bs ...[]byte) {
+	if bulk {
+		bulkDistinct++
+		return
+	}
+	h := uint64(14695981039346656037)
+	mix := func(b byte) { h ^= uint64(b); h *= 1099511628211 }
+	mix(kind)
+	for _, n := range nums {
+		for i := 0; i < 8; i++ {
+			mix(byte(uint64(n) >> (8 * uint(i))))
+		}
+	}
+	for _, b := range bs {
+		mix(0xfe)
+		for _, x := range b {
+			mix(x)
+		}
+	}
+	distinctSet[h] = struct{}{}
+}
+
+func inTable(f int) bool {
+	for _, t := range tableFreqs {
+		if t == f {
+			return true
+		}
+	}
+	return false
+}
+
 func fail(site, class, witness, desc string) {
 	fmt.Fprintf(out, "FAIL\t%s\t%s\t%s\t%s\n", site, class, witness, desc)
 }
@@ -551,6 +588,7 @@ func canonicalASC(ot, ch byte, f, e int) *aac.AudioSpecificConfig {
 
 func checkASC(a *aac.AudioSpecificConfig) {
 	evals++
+	noteInput('a', []int{int(a.ObjectType), int(a.ChannelConfiguration), a.SamplingFrequency, a.ExtensionFrequency})
 	w := fmt.Sprintf("ot=%d ch=%d f=%d e=%d", a.ObjectType, a.ChannelConfiguration, a.SamplingFrequency, a.ExtensionFrequency)
 	cls, b := encodeASC(a)
 	if cls != "ok" {
@@ -584,9 +622,11 @@ func searchASC(r *hx.Rng, n int, thorough bool) {
 	if thorough {
 		// every explicit 24-bit value as sampling frequency (AAC-LC) and as extension frequency (HE-AAC)
 		for f := 0; f < 1<<24; f++ {
+			bulk = !inTable(f) // the 13 table values are already counted in the table enumeration
 			checkASC(canonicalASC(2, byte(f&15), f, 0))
 			checkASC(canonicalASC(objTypes[1+f&1], byte((f>>4)&15), tableFreqs[f%13], f))
 		}
+		bulk = false
 	}
 	fs := explicitFreqs(r, n)
 	for i, f := range fs {
@@ -601,6 +641,8 @@ func searchASC(r *hx.Rng, n int, thorough bool) {
 
 func checkADTS(h aac.ADTSHeader, junk, rest []byte) {
 	evals++
+	noteInput('h', []int{int(h.ID), int(h.ObjectType), int(h.SamplingFrequencyIndex), int(h.ChannelConfig), int(h.HeaderLength),
+		int(h.PayloadLength), int(h.BufferFullness)}, junk, rest)
 	b := append(append(append([]byte{}, junk...), h.Encode()...), rest...)
 	cls, d, off := decodeADTS(b)
 	w := func() string {
@@ -649,6 +691,7 @@ func searchADTS(r *hx.Rng, n int, thorough bool) {
 		}
 	}
 	if thorough {
+		bulk = true
 		for ot := 1; ot <= 4; ot++ {
 			for _, bf := range []uint16{0, 1, 0x400, 0x7fe} {
 				for sfi := 0; sfi < 16; sfi++ {
@@ -661,6 +704,7 @@ func searchADTS(r *hx.Rng, n int, thorough bool) {
 				}
 			}
 		}
+		bulk = false
 		for bf := 0; bf < 2048; bf++ {
 			checkADTS(aac.ADTSHeader{ObjectType: 2, SamplingFrequencyIndex: 3, ChannelConfig: 2, HeaderLength: 7, PayloadLength: uint16(bf * 3), BufferFullness: uint16(bf)}, nil, nil)
 		}
@@ -695,6 +739,7 @@ func searchADTS(r *hx.Rng, n int, thorough bool) {
 // sample entry: SetAACDescriptor -> mp4a/esds -> encode -> decode -> DecSpecificInfo -> DecodeAudioSpecificConfig
 func checkEntry(ot byte, f int) {
 	evals++
+	noteInput('e', []int{int(ot), f})
 	w := fmt.Sprintf("SetAACDescriptor(%d, %d)", ot, f)
 	want := canonicalASC(ot, 2, f, 2*f)
 	if ot == 29 {
@@ -847,6 +892,7 @@ func main() {
 			fmt.Fprintf(out, "PART\tentry\t%d\n", evals)
 		}
 		fmt.Fprintf(out, "EVALS\t%d\n", evals)
+		fmt.Fprintf(out, "DISTINCT\t%d\n", len(distinctSet)+bulkDistinct)
 	case "replay":
 		replay(*site, *witness)
 		fmt.Fprintf(out, "EVALS\t%d\n", evals)
